@@ -43,6 +43,11 @@
      Dev_CalcIndexTwice         a calculated channel's "_time" index is appended again by
                                 the bootstrapper when the request came through a peer
      Dev_CalcIndexUnchecked     the appended index names are never name-validated
+     Dev_FreeRenameStaleIndex   a free channel renamed through a non-bootstrapper gateway is
+                                written in that gateway's tx and forwarded to the bootstrapper,
+                                whose name index (fed by local txs and by an observable that
+                                ignores host-leased rows) keeps the OLD name: lookups by name
+                                on the bootstrapper no longer find the channel
      Window_EngineBeforeMeta    a failure may strike after an engine mutation and before
                                 the metadata transaction commits (masked: never there)
 
@@ -65,10 +70,13 @@ CONSTANTS Node,          \* {1} | {1,2} | {1,2,3}; 1 is the bootstrapper
           Kinds,         \* subset of {"index","fixed","variable","virtual","free","calc","badtype"}
           Opts,          \* subset of {"plain","retrieve","overwrite"}
           MaxBatch, MaxReq, MaxCtr, MaxRestart,
+          Types,         \* subset of {"create","delete","rename"}
+          Chain,         \* a request may be two CreateMany calls inside one transaction
           InjectFail,    \* FailHere enabled (design level only)
           AnyPeerOrder,  \* peers visited in any order (Go map iteration) or ascending
           Dev_DeleteSkipsVirtual, Dev_EngineCreateNoCleanup, Dev_EngineDeletePartial,
           Dev_OverwriteLocalEngine, Dev_CalcIndexTwice, Dev_CalcIndexUnchecked,
+          Dev_FreeRenameStaleIndex,
           Window_EngineBeforeMeta
 
 VARIABLES ctr,       \* [Lease -> Nat] persisted key counters; ctr[0] = free counter
@@ -78,12 +86,14 @@ VARIABLES ctr,       \* [Lease -> Nat] persisted key counters; ctr[0] = free cou
           everUsed,  \* ghost: every key ever assigned
           fresh,     \* ghost: no assignment ever picked a key from everUsed
           gone,      \* ghost: keys removed from metadata by successful requests
+          ixn,       \* free key -> name the bootstrapper's name index files it under,
+                     \* for keys whose index entry is out of date (see Dev_FreeRenameStaleIndex)
           keyOf,     \* caller's knowledge: name -> last key returned for it
           stim,      \* request under construction
           rq,        \* request in flight
           last,      \* outcome of the last completed request
           nreq, nrestart
-vars == <<ctr, meta, engine, onto, everUsed, fresh, gone, keyOf, stim, rq, last, nreq, nrestart>>
+vars == <<ctr, meta, engine, onto, everUsed, fresh, gone, ixn, keyOf, stim, rq, last, nreq, nrestart>>
 
 Lease == Node \cup {0}                 \* 0 stands for node.KeyFree (4095)
 Boot == 1
@@ -126,50 +136,64 @@ OffFrame == [at |-> 0, pc |-> "off", tx |-> EmptyTx, list |-> <<>>, fl |-> <<>>,
              tc |-> <<>>, dirty |-> FALSE]
 Frame(n, pc, list) == [OffFrame EXCEPT !.at = n, !.pc = pc, !.list = list]
 Idle == [type |-> "idle", g |-> 0, opt |-> "plain", gw |-> OffFrame, rm |-> OffFrame,
-         peers |-> {}, fdone |-> FALSE, ret |-> <<>>, m0 |-> {}, stim |-> <<>>]
-NoStim == [type |-> "none", g |-> 0, opt |-> "plain", ents |-> <<>>]
+         peers |-> {}, fdone |-> FALSE, ret |-> <<>>, m0 |-> {}, stim |-> <<>>, rest |-> <<>>]
+NoStim == [type |-> "none", g |-> 0, opt |-> "plain", ents |-> <<>>, cut |-> 0, st |-> "none", kind |-> ""]
 NoLast == [res |-> "none", why |-> "", ret |-> <<>>, n |-> 0]
 
 Init == /\ ctr = [l \in Lease |-> 0]
         /\ meta = EmptyF /\ engine = [n \in Node |-> EmptyF] /\ onto = {}
         /\ everUsed = {} /\ fresh = TRUE /\ gone = {}
-        /\ keyOf = [x \in NameU |-> NoKey]
+        /\ keyOf = [x \in NameU |-> NoKey] /\ ixn = EmptyF
         /\ stim = NoStim /\ rq = Idle /\ last = NoLast /\ nreq = 0 /\ nrestart = 0
 
 --------------------------------------------------------------------------------
-\* request construction (the caller)
-EntryChoices ==
-  {[name |-> nm, kind |-> kd, lease |-> ls, ref |-> rf] :
-     nm \in BaseName \cup ExtraName, kd \in Kinds, ls \in Lease, rf \in BaseName \cup {"none"}}
-GoodEntry(e) == /\ (e.kind \in {"free", "calc"}) = (e.lease = 0)
-                /\ e.kind = "calc" => e.name \in BaseName
-                /\ e.kind \notin {"fixed", "variable"} => e.ref = "none"
-Begin(t, g, o) == /\ rq.type = "idle" /\ stim.type = "none" /\ nreq < MaxReq
-                  /\ stim' = [type |-> t, g |-> g, opt |-> o, ents |-> <<>>]
-                  /\ UNCHANGED <<ctr, meta, engine, onto, everUsed, fresh, gone, keyOf, rq, last, nreq, nrestart>>
-Adding == stim.type # "none" /\ Len(stim.ents) < MaxBatch
+\* request construction (the caller), in stages so that random walks are balanced:
+\* type -> gateway/option -> per entry: kind -> name/lease/index reference -> more?
+LeaseChoices(kd) == IF kd \in {"free", "calc"} THEN {0} ELSE Node
+NameChoices(kd) == IF kd = "calc" THEN BaseName ELSE BaseName \cup ExtraName
+\* index references: none, every name the caller holds a key for, one name it does not
+Unmapped == {b \in BaseName : keyOf[b] = NoKey}
+RefChoices(kd) == IF kd \notin {"fixed", "variable"} THEN {"none"}
+                  ELSE {"none"} \cup (BaseName \ Unmapped)
+                       \cup (IF Unmapped = {} THEN {} ELSE {CHOOSE b \in Unmapped : TRUE})
+StimUnch == UNCHANGED <<ctr, meta, engine, onto, everUsed, fresh, gone, ixn, keyOf, rq, last, nreq, nrestart>>
+PickType(t) == /\ rq.type = "idle" /\ stim.st = "none" /\ nreq < MaxReq
+               /\ stim' = [NoStim EXCEPT !.type = t, !.st = "gate"] /\ StimUnch
+PickGate(g, o) == /\ stim.st = "gate" /\ (stim.type = "create" \/ o = "plain")
+                  /\ stim' = [stim EXCEPT !.g = g, !.opt = o, !.st = IF stim.type = "create" THEN "kind" ELSE "rest"]
+                  /\ StimUnch
+PickKind(kd) == /\ stim.st = "kind" /\ stim' = [stim EXCEPT !.kind = kd, !.st = "rest"] /\ StimUnch
 NewTarget(nm) == /\ keyOf[nm] # NoKey
                  /\ \A i \in 1..Len(stim.ents) : keyOf[stim.ents[i].name] # keyOf[nm]
-AddEntry(t, e) == /\ Adding /\ stim.type = t
-                  /\ stim' = [stim EXCEPT !.ents = Append(@, e)]
-                  /\ UNCHANGED <<ctr, meta, engine, onto, everUsed, fresh, gone, keyOf, rq, last, nreq, nrestart>>
-AddCreate == \E e \in EntryChoices : GoodEntry(e) /\ AddEntry("create", e)
-AddDelete == \E nm \in NameU : NewTarget(nm) /\ AddEntry("delete", [name |-> nm])
-AddRename == \E nm \in NameU, nw \in BaseName \cup ExtraName :
-               NewTarget(nm) /\ AddEntry("rename", [name |-> nm, new |-> nw])
+AddEntry(e) == stim' = [stim EXCEPT !.ents = Append(@, e), !.st = "more"] /\ StimUnch
+PickRest ==
+  /\ stim.st = "rest"
+  /\ CASE stim.type = "create" ->
+             \E nm \in NameChoices(stim.kind), ls \in LeaseChoices(stim.kind), rf \in RefChoices(stim.kind) :
+                AddEntry([name |-> nm, kind |-> stim.kind, lease |-> ls, ref |-> rf])
+       [] stim.type = "delete" -> \E nm \in NameU : NewTarget(nm) /\ AddEntry([name |-> nm])
+       [] stim.type = "rename" -> \E nm \in NameU, nw \in BaseName \cup ExtraName :
+                                     NewTarget(nm) /\ AddEntry([name |-> nm, new |-> nw])
+AddAnother == /\ stim.st = "more" /\ Len(stim.ents) - stim.cut < MaxBatch
+              /\ stim' = [stim EXCEPT !.st = IF stim.type = "create" THEN "kind" ELSE "rest"] /\ StimUnch
+\* close the first CreateMany of the transaction and start a second one
+NextBatch == /\ Chain /\ stim.st = "more" /\ stim.type = "create" /\ stim.cut = 0
+             /\ stim' = [stim EXCEPT !.cut = Len(stim.ents), !.st = "kind"] /\ StimUnch
 FirstPc(t) == CASE t = "create" -> IF Dev_CalcIndexUnchecked THEN "v" ELSE "x"
                 [] t = "delete" -> "dr" [] t = "rename" -> "nv"
-StartList(t) == CASE t = "create" -> [i \in 1..Len(stim.ents) |-> Resolve(stim.ents[i])]
+FirstLen == IF stim.cut = 0 THEN Len(stim.ents) ELSE stim.cut
+StartList(t) == CASE t = "create" -> [i \in 1..FirstLen |-> Resolve(stim.ents[i])]
                   [] t = "delete" -> [i \in 1..Len(stim.ents) |-> [key |-> keyOf[stim.ents[i].name], name |-> ""]]
                   [] t = "rename" -> [i \in 1..Len(stim.ents) |-> [key |-> keyOf[stim.ents[i].name], name |-> stim.ents[i].new]]
-Submit == /\ stim.type # "none" /\ Len(stim.ents) >= 1
+Submit == /\ stim.st = "more"
           /\ rq' = [Idle EXCEPT !.type = stim.type, !.g = stim.g, !.opt = stim.opt, !.stim = stim,
                                 !.gw = Frame(stim.g, FirstPc(stim.type), StartList(stim.type)),
                                 !.peers = IF stim.type = "create" THEN {}
                                           ELSE {StartList(stim.type)[i].key.l : i \in 1..Len(stim.ents)} \ {0, stim.g},
+                                !.rest = IF stim.cut = 0 THEN <<>> ELSE SubSeq(stim.ents, stim.cut + 1, Len(stim.ents)),
                                 !.m0 = DOMAIN meta]
           /\ stim' = NoStim
-          /\ UNCHANGED <<ctr, meta, engine, onto, everUsed, fresh, gone, keyOf, last, nreq, nrestart>>
+          /\ UNCHANGED <<ctr, meta, engine, onto, everUsed, fresh, gone, ixn, keyOf, last, nreq, nrestart>>
 
 --------------------------------------------------------------------------------
 \* frames
@@ -178,6 +202,8 @@ A == IF RmOn THEN rq.rm ELSE rq.gw
 SetA(f) == IF RmOn THEN [rq EXCEPT !.rm = f] ELSE [rq EXCEPT !.gw = f]
 Busy == rq.type # "idle"
 View(T) == T.put @@ Restr(meta, DOMAIN meta \ T.del)
+\* lookup by name on node `at` (channel.MatchNames -> name index)
+Hit(at, V, k, x) == V[k].name = x /\ ((at = Boot /\ k \in DOMAIN ixn) => ixn[k] = x)
 ApplyTx(m, T) == T.put @@ Restr(m, DOMAIN m \ T.del)
 Dirty == rq.gw.dirty \/ rq.rm.dirty
 CanFail(d) == Window_EngineBeforeMeta \/ ~d
@@ -227,10 +253,10 @@ CValidate ==
   /\ LET L == A.list  V == View(A.tx)
          dup == \E i, j \in 1..Len(L) : i < j /\ L[i].name = L[j].name
          conflict == rq.opt = "plain" /\ \E i \in 1..Len(L), k \in DOMAIN V :
-                                            V[k].name = L[i].name /\ k # L[i].key
+                                            Hit(A.at, V, k, L[i].name) /\ k # L[i].key
      IN IF dup \/ conflict
-        THEN CanFail(Dirty) /\ Abort("name") /\ UNCHANGED <<ctr, meta, engine, onto, everUsed, fresh, gone, keyOf, stim, nrestart>>
-        ELSE Goto(AfterV) /\ UNCHANGED <<ctr, meta, engine, onto, everUsed, fresh, gone, keyOf, stim, last, nreq, nrestart>>
+        THEN CanFail(Dirty) /\ Abort("name") /\ UNCHANGED <<ctr, meta, engine, onto, everUsed, fresh, gone, ixn, keyOf, stim, nrestart>>
+        ELSE Goto(AfterV) /\ UNCHANGED <<ctr, meta, engine, onto, everUsed, fresh, gone, ixn, keyOf, stim, last, nreq, nrestart>>
 CExpand ==
   /\ Busy /\ A.pc = "x"
   /\ LET L == A.list
@@ -239,7 +265,7 @@ CExpand ==
          cs == SelectSeq(L, need)
          add == [i \in 1..Len(cs) |-> IndexEntry(cs[i])]
      IN rq' = SetA([A EXCEPT !.pc = AfterX, !.list = L \o add])
-  /\ UNCHANGED <<ctr, meta, engine, onto, everUsed, fresh, gone, keyOf, stim, last, nreq, nrestart>>
+  /\ UNCHANGED <<ctr, meta, engine, onto, everUsed, fresh, gone, ixn, keyOf, stim, last, nreq, nrestart>>
 CSplit ==
   /\ Busy /\ A.pc = "s"
   /\ LET L == A.list
@@ -248,7 +274,7 @@ CSplit ==
                         !.pc = IF RmOn THEN "f1" ELSE "r"]
      IN rq' = IF RmOn THEN [rq EXCEPT !.rm = f]
               ELSE [rq EXCEPT !.gw = f, !.peers = {L[i].lease : i \in 1..Len(L)} \ {0, rq.g}]
-  /\ UNCHANGED <<ctr, meta, engine, onto, everUsed, fresh, gone, keyOf, stim, last, nreq, nrestart>>
+  /\ UNCHANGED <<ctr, meta, engine, onto, everUsed, fresh, gone, ixn, keyOf, stim, last, nreq, nrestart>>
 PickPeer(n) == n \in rq.peers /\ (AnyPeerOrder \/ \A m \in rq.peers : n <= m)
 CRoute ==
   /\ Busy /\ ~RmOn /\ rq.gw.pc = "r"
@@ -260,7 +286,7 @@ CRoute ==
           THEN rq' = [rq EXCEPT !.fdone = TRUE, !.gw.fl = <<>>,
                                 !.rm = Frame(Boot, FirstPc("create"), rq.gw.fl)]
           ELSE rq' = [rq EXCEPT !.gw.pc = "f1"]
-  /\ UNCHANGED <<ctr, meta, engine, onto, everUsed, fresh, gone, keyOf, stim, last, nreq, nrestart>>
+  /\ UNCHANGED <<ctr, meta, engine, onto, everUsed, fresh, gone, ixn, keyOf, stim, last, nreq, nrestart>>
 
 Same(e, ch) == e.dt = ch.dt /\ e.isidx = ch.isidx /\ e.virt = ch.virt /\ e.calc = ch.calc
 \* deleteOverwritten: fold over the existing channels whose name is requested
@@ -274,7 +300,7 @@ OvFold(V, L, del, ex) ==
           ELSE OvFold(V, L, Append(del, k), Tail(ex))
 Overwrite(L, T) ==
   LET V == View(T)
-      ex == SortKeys({k \in DOMAIN V : \E i \in 1..Len(L) : L[i].name = V[k].name})
+      ex == SortKeys({k \in DOMAIN V : \E i \in 1..Len(L) : Hit(A.at, V, k, L[i].name)})
   IN OvFold(V, L, <<>>, ex)
 \* engine side of deleteOverwritten run on node `at`: [ok, eng] over all nodes
 OvEngine(at, del) ==
@@ -286,8 +312,8 @@ OvEngine(at, del) ==
 COverwrite(pc, which, next, skip) ==
   /\ Busy /\ A.pc = pc
   /\ LET L == IF which = "fl" THEN A.fl ELSE A.ll IN
-     IF L = <<>> THEN Goto(skip) /\ UNCHANGED <<ctr, meta, engine, onto, everUsed, fresh, gone, keyOf, stim, last, nreq, nrestart>>
-     ELSE IF rq.opt # "overwrite" THEN Goto(next) /\ UNCHANGED <<ctr, meta, engine, onto, everUsed, fresh, gone, keyOf, stim, last, nreq, nrestart>>
+     IF L = <<>> THEN Goto(skip) /\ UNCHANGED <<ctr, meta, engine, onto, everUsed, fresh, gone, ixn, keyOf, stim, last, nreq, nrestart>>
+     ELSE IF rq.opt # "overwrite" THEN Goto(next) /\ UNCHANGED <<ctr, meta, engine, onto, everUsed, fresh, gone, ixn, keyOf, stim, last, nreq, nrestart>>
      ELSE LET o == Overwrite(L, A.tx)
               r == OvEngine(A.at, o.del)
               changed == r.eng # engine
@@ -298,7 +324,7 @@ COverwrite(pc, which, next, skip) ==
           IN /\ engine' = r.eng
              /\ IF r.ok THEN rq' = SetA(f) /\ UNCHANGED <<last, nreq>>
                 ELSE CanFail(Dirty \/ changed) /\ Abort("engine-delete")
-             /\ UNCHANGED <<ctr, meta, onto, everUsed, fresh, gone, keyOf, stim, nrestart>>
+             /\ UNCHANGED <<ctr, meta, onto, everUsed, fresh, gone, ixn, keyOf, stim, nrestart>>
 CFreeOverwrite == COverwrite("f1", "fl", "f2", "l1")
 CLocalOverwrite == COverwrite("l1", "ll", "l2", "o")
 
@@ -314,7 +340,7 @@ Assign(L0, lc, T) ==
   LET V == View(T)
       names == [i \in 1..Len(L0) |-> L0[i].name]
       rf == IF rq.opt = "retrieve"
-            THEN RetFold(V, names, L0, 0, SortKeys({k \in DOMAIN V : V[k].name \in Rng(names)}))
+            THEN RetFold(V, names, L0, 0, SortKeys({k \in DOMAIN V : \E x \in Rng(names) : Hit(A.at, V, k, x)}))
             ELSE [l |-> L0, dec |-> 0]
       L == rf.l
       inc == IF Len(L) >= rf.dec THEN Len(L) - rf.dec ELSE 0
@@ -346,7 +372,7 @@ CAssign(pc, which, next) ==
         /\ rq' = SetA([A EXCEPT !.pc = next, !.tc = tc,
                                 !.fl = IF which = "fl" THEN L ELSE @,
                                 !.ll = IF which = "ll" THEN L ELSE @])
-  /\ UNCHANGED <<meta, engine, onto, gone, keyOf, stim, last, nreq, nrestart>>
+  /\ UNCHANGED <<meta, engine, onto, gone, ixn, keyOf, stim, last, nreq, nrestart>>
 CFreeAssign == CAssign("f2", "fl", "f3")
 CLocalAssign == CAssign("l2", "ll", "l3")
 CEngineCreate ==
@@ -356,26 +382,26 @@ CEngineCreate ==
      IN /\ engine' = [engine EXCEPT ![A.at] = r.e]
         /\ IF r.ok THEN rq' = SetA([A EXCEPT !.pc = "l4", !.dirty = @ \/ changed]) /\ UNCHANGED <<last, nreq>>
            ELSE CanFail(Dirty \/ changed) /\ Abort("engine-create")
-  /\ UNCHANGED <<ctr, meta, onto, everUsed, fresh, gone, keyOf, stim, nrestart>>
+  /\ UNCHANGED <<ctr, meta, onto, everUsed, fresh, gone, ixn, keyOf, stim, nrestart>>
 CMetaCreate(pc, next) ==
   /\ Busy /\ A.pc = pc
   /\ LET tc == A.tc
          put == [k \in {tc[i].key : i \in 1..Len(tc)} |->
                    Fields(tc[CHOOSE i \in 1..Len(tc) : tc[i].key = k /\ \A j \in 1..Len(tc) : tc[j].key = k => j <= i])]
      IN rq' = SetA([A EXCEPT !.pc = next, !.tx.put = put @@ @])
-  /\ UNCHANGED <<ctr, meta, engine, onto, everUsed, fresh, gone, keyOf, stim, last, nreq, nrestart>>
+  /\ UNCHANGED <<ctr, meta, engine, onto, everUsed, fresh, gone, ixn, keyOf, stim, last, nreq, nrestart>>
 CFreeMeta == CMetaCreate("f3", "f4")
 CLocalMeta == CMetaCreate("l4", "o")
 KeysOf(l) == {l[i].key : i \in 1..Len(l)}
 CFreeOnto ==
   /\ Busy /\ A.pc = "f4"
   /\ rq' = SetA([A EXCEPT !.pc = "l1", !.tx.oput = @ \cup KeysOf(A.tc)])
-  /\ UNCHANGED <<ctr, meta, engine, onto, everUsed, fresh, gone, keyOf, stim, last, nreq, nrestart>>
+  /\ UNCHANGED <<ctr, meta, engine, onto, everUsed, fresh, gone, ixn, keyOf, stim, last, nreq, nrestart>>
 COnto ==
   /\ Busy /\ A.pc = "o"
   /\ rq' = SetA([A EXCEPT !.pc = "c",
                           !.tx.oput = @ \cup KeysOf(A.fl) \cup KeysOf(A.ll) \cup (IF RmOn THEN {} ELSE KeysOf(rq.ret))])
-  /\ UNCHANGED <<ctr, meta, engine, onto, everUsed, fresh, gone, keyOf, stim, last, nreq, nrestart>>
+  /\ UNCHANGED <<ctr, meta, engine, onto, everUsed, fresh, gone, ixn, keyOf, stim, last, nreq, nrestart>>
 
 \* ---- delete -----------------------------------------------------------------
 DRoute ==
@@ -386,19 +412,19 @@ DRoute ==
                         !.rm = Frame(n, IF rq.type = "delete" THEN "dm" ELSE "nv",
                                      SelectSeq(rq.gw.list, LAMBDA e : e.key.l = n))]
      ELSE rq' = [rq EXCEPT !.gw.pc = IF rq.type = "delete" THEN "df" ELSE "nf"]
-  /\ UNCHANGED <<ctr, meta, engine, onto, everUsed, fresh, gone, keyOf, stim, last, nreq, nrestart>>
+  /\ UNCHANGED <<ctr, meta, engine, onto, everUsed, fresh, gone, ixn, keyOf, stim, last, nreq, nrestart>>
 Mine(f) == SelectSeq(f.list, LAMBDA e : e.key.l = f.at)
 Free(f) == SelectSeq(f.list, LAMBDA e : e.key.l = 0)
 DFree == /\ Busy /\ A.pc = "df"
          /\ rq' = SetA([A EXCEPT !.pc = "dm", !.tx.del = @ \cup KeysOf(Free(A))])
-         /\ UNCHANGED <<ctr, meta, engine, onto, everUsed, fresh, gone, keyOf, stim, last, nreq, nrestart>>
+         /\ UNCHANGED <<ctr, meta, engine, onto, everUsed, fresh, gone, ixn, keyOf, stim, last, nreq, nrestart>>
 DMeta == /\ Busy /\ A.pc = "dm"
          /\ rq' = SetA([A EXCEPT !.pc = "do", !.tx.del = @ \cup KeysOf(Mine(A))])
-         /\ UNCHANGED <<ctr, meta, engine, onto, everUsed, fresh, gone, keyOf, stim, last, nreq, nrestart>>
+         /\ UNCHANGED <<ctr, meta, engine, onto, everUsed, fresh, gone, ixn, keyOf, stim, last, nreq, nrestart>>
 DOnto == /\ Busy /\ A.pc \in {"do", "dO"}
          /\ rq' = SetA([A EXCEPT !.pc = IF A.pc = "do" THEN "de" ELSE "c",
                                  !.tx.odel = @ \cup (IF A.pc = "do" THEN KeysOf(Mine(A)) ELSE KeysOf(A.list))])
-         /\ UNCHANGED <<ctr, meta, engine, onto, everUsed, fresh, gone, keyOf, stim, last, nreq, nrestart>>
+         /\ UNCHANGED <<ctr, meta, engine, onto, everUsed, fresh, gone, ixn, keyOf, stim, last, nreq, nrestart>>
 DEngine ==
   /\ Busy /\ A.pc = "de"
   /\ LET m == Mine(A)
@@ -407,17 +433,17 @@ DEngine ==
      IN /\ engine' = [engine EXCEPT ![A.at] = r.e]
         /\ IF r.ok THEN rq' = SetA([A EXCEPT !.pc = "dO", !.dirty = @ \/ changed]) /\ UNCHANGED <<last, nreq>>
            ELSE CanFail(Dirty \/ changed) /\ Abort("engine-delete")
-  /\ UNCHANGED <<ctr, meta, onto, everUsed, fresh, gone, keyOf, stim, nrestart>>
+  /\ UNCHANGED <<ctr, meta, onto, everUsed, fresh, gone, ixn, keyOf, stim, nrestart>>
 
 \* ---- rename -----------------------------------------------------------------
 NValidate ==
   /\ Busy /\ A.pc = "nv"
   /\ LET L == A.list  V == View(A.tx)
          dup == \E i, j \in 1..Len(L) : i < j /\ L[i].name = L[j].name
-         conflict == \E i \in 1..Len(L), k \in DOMAIN V : V[k].name = L[i].name /\ k # L[i].key
+         conflict == \E i \in 1..Len(L), k \in DOMAIN V : Hit(A.at, V, k, L[i].name) /\ k # L[i].key
      IN IF dup \/ conflict
-        THEN CanFail(Dirty) /\ Abort("name") /\ UNCHANGED <<ctr, meta, engine, onto, everUsed, fresh, gone, keyOf, stim, nrestart>>
-        ELSE Goto(IF RmOn THEN "nm" ELSE "nr") /\ UNCHANGED <<ctr, meta, engine, onto, everUsed, fresh, gone, keyOf, stim, last, nreq, nrestart>>
+        THEN CanFail(Dirty) /\ Abort("name") /\ UNCHANGED <<ctr, meta, engine, onto, everUsed, fresh, gone, ixn, keyOf, stim, nrestart>>
+        ELSE Goto(IF RmOn THEN "nm" ELSE "nr") /\ UNCHANGED <<ctr, meta, engine, onto, everUsed, fresh, gone, ixn, keyOf, stim, last, nreq, nrestart>>
 \* table.NewUpdate().Where(MatchKeys(keys...)): all keys must exist
 NUpdate(pc, sel(_), next) ==
   /\ Busy /\ A.pc = pc
@@ -429,7 +455,7 @@ NUpdate(pc, sel(_), next) ==
                         !.tx.put = [k \in KeysOf(l) |->
                                       [V[k] EXCEPT !.name = l[CHOOSE i \in 1..Len(l) : l[i].key = k].name]] @@ @])
           /\ UNCHANGED <<last, nreq>>
-  /\ UNCHANGED <<ctr, meta, engine, onto, everUsed, fresh, gone, keyOf, stim, nrestart>>
+  /\ UNCHANGED <<ctr, meta, engine, onto, everUsed, fresh, gone, ixn, keyOf, stim, nrestart>>
 NFree == NUpdate("nf", Free, "nm")
 NMeta == NUpdate("nm", Mine, "ne")
 NEngine ==
@@ -439,44 +465,56 @@ NEngine ==
      IN /\ engine' = [engine EXCEPT ![A.at] = r.e]
         /\ IF r.ok THEN rq' = SetA([A EXCEPT !.pc = "c", !.dirty = @ \/ changed]) /\ UNCHANGED <<last, nreq>>
            ELSE CanFail(Dirty \/ changed) /\ Abort("engine-rename")
-  /\ UNCHANGED <<ctr, meta, onto, everUsed, fresh, gone, keyOf, stim, nrestart>>
+  /\ UNCHANGED <<ctr, meta, onto, everUsed, fresh, gone, ixn, keyOf, stim, nrestart>>
 
 \* ---- commit -----------------------------------------------------------------
 RetOf(f) == IF rq.type = "create" THEN [i \in 1..Len(f.fl \o f.ll) |->
                  [name |-> (f.fl \o f.ll)[i].name, key |-> (f.fl \o f.ll)[i].key]] ELSE <<>>
 RECURSIVE Learn(_, _)
 Learn(ko, ret) == IF ret = <<>> THEN ko ELSE Learn([ko EXCEPT ![Head(ret).name] = Head(ret).key], Tail(ret))
+\* second CreateMany inside the same caller transaction: nothing is committed yet
+Continue ==
+  /\ Busy /\ ~RmOn /\ rq.gw.pc = "c" /\ rq.rest # <<>>
+  /\ rq' = [rq EXCEPT !.gw = [Frame(rq.g, FirstPc("create"), [i \in 1..Len(rq.rest) |-> Resolve(rq.rest[i])])
+                                EXCEPT !.tx = rq.gw.tx, !.dirty = rq.gw.dirty],
+                       !.ret = @ \o RetOf(rq.gw), !.rest = <<>>, !.fdone = FALSE, !.peers = {}]
+  /\ UNCHANGED <<ctr, meta, engine, onto, everUsed, fresh, gone, ixn, keyOf, stim, last, nreq, nrestart>>
 Commit ==
-  /\ Busy /\ A.pc = "c"
+  /\ Busy /\ A.pc = "c" /\ (RmOn \/ rq.rest = <<>>)
   /\ meta' = ApplyTx(meta, A.tx)
   /\ onto' = (onto \ A.tx.odel) \cup A.tx.oput
   /\ IF RmOn
      THEN /\ rq' = [rq EXCEPT !.rm = OffFrame, !.ret = @ \o RetOf(rq.rm)]
-          /\ UNCHANGED <<gone, keyOf, last, nreq>>
+          /\ UNCHANGED <<gone, ixn, keyOf, last, nreq>>
      ELSE LET ret == rq.ret \o RetOf(rq.gw) IN
           /\ rq' = Idle
           /\ last' = [res |-> "ok", why |-> "", ret |-> ret, n |-> 0]
           /\ nreq' = nreq + 1
           /\ gone' = gone \cup (rq.m0 \ DOMAIN meta')
+          /\ ixn' = LET fr == IF rq.type = "rename" THEN KeysOf(Free(rq.gw)) ELSE {}
+                         live == Restr(ixn, DOMAIN ixn \cap DOMAIN meta')
+                     IN IF rq.g = Boot \/ ~Dev_FreeRenameStaleIndex THEN Without(live, fr)
+                        ELSE live @@ [k \in fr \cap DOMAIN meta |-> meta[k].name]
           /\ keyOf' = IF rq.type = "rename"
                       THEN Learn(keyOf, [i \in 1..Len(rq.gw.list) |-> rq.gw.list[i]])
                       ELSE Learn(keyOf, ret)
   /\ UNCHANGED <<ctr, engine, everUsed, fresh, stim, nrestart>>
 
 FailHere == /\ InjectFail /\ Busy /\ CanFail(Dirty) /\ Abort("injected")
-            /\ UNCHANGED <<ctr, meta, engine, onto, everUsed, fresh, gone, keyOf, stim, nrestart>>
-Restart(n) == /\ ~Busy /\ stim.type = "none" /\ nrestart < MaxRestart /\ nreq < MaxReq
+            /\ UNCHANGED <<ctr, meta, engine, onto, everUsed, fresh, gone, ixn, keyOf, stim, nrestart>>
+Restart(n) == /\ ~Busy /\ stim.st = "none" /\ nrestart < MaxRestart /\ nreq < MaxReq
               /\ nrestart' = nrestart + 1 /\ nreq' = nreq + 1
               /\ last' = [res |-> "ok", why |-> "restart", ret |-> <<>>, n |-> n]
-              /\ UNCHANGED <<ctr, meta, engine, onto, everUsed, fresh, gone, keyOf, stim, rq>>
+              /\ UNCHANGED <<ctr, meta, engine, onto, everUsed, fresh, gone, ixn, keyOf, stim, rq>>
 
 Step == \/ CValidate \/ CExpand \/ CSplit \/ CRoute \/ CFreeOverwrite \/ CFreeAssign \/ CFreeMeta
         \/ CFreeOnto \/ CLocalOverwrite \/ CLocalAssign \/ CEngineCreate \/ CLocalMeta \/ COnto
         \/ DRoute \/ DFree \/ DMeta \/ DOnto \/ DEngine
-        \/ NValidate \/ NFree \/ NMeta \/ NEngine \/ Commit
-Next == \/ \E t \in {"create", "delete", "rename"}, g \in Node, o \in Opts :
-             (t = "create" \/ o = "plain") /\ Begin(t, g, o)
-        \/ AddCreate \/ AddDelete \/ AddRename
+        \/ NValidate \/ NFree \/ NMeta \/ NEngine \/ Continue \/ Commit
+Next == \/ \E t \in Types : PickType(t)
+        \/ \E g \in Node, o \in Opts : PickGate(g, o)
+        \/ \E kd \in Kinds : PickKind(kd)
+        \/ PickRest \/ AddAnother \/ NextBatch
         \/ Submit \/ Step \/ FailHere
         \/ \E n \in Node : Restart(n)
 Spec == Init /\ [][Next]_vars
